@@ -3,6 +3,8 @@ abstract basis sets (shared by C14, C08, C18)."""
 
 from __future__ import annotations
 
+import ast
+
 import numpy as np
 
 from .. import AnalysisError
@@ -43,6 +45,11 @@ def check_segmentation(ctx, rid_split, rid_pred):
         return e
 
     try:
+        d_ = cs.default_of("keep_sp")
+        if isinstance(d_, ast.Constant) and d_.value is False:
+            ctx.ok(rid_split, "convert_to_segmented: `keep_sp` defaults to False (compute_overlap and most writers rely on it)", f"{cs.module.relpath}:{cs.lineno}", sample=False)
+        else:
+            ctx.violate(rid_split, f"convert_to_segmented: `keep_sp` defaults to `{ast.unparse(d_) if d_ is not None else '<no default>'}`: callers that omit it (the overlap code) keep SP shells and use their first angular momentum only", cs, cs.node, construct="keep_sp default")
         for keep_sp in (False, True):
             src = _basis(prog, shell_cls, basis_cls)
             out = ev(cs.module).run_free(cs, [src], {"keep_sp": keep_sp})
